@@ -10,7 +10,12 @@ Assumptions (trusted base): kill, not power loss (data written before the kill s
 namespace MhlModel.Crash
 
 abbrev Bytes := List UInt8
-abbrev Fs := List (String × Bytes)
+
+/-- files (path ↦ bytes, insertion ordered) and the directories that were created -/
+structure Fs where
+  files : List (String × Bytes) := []
+  dirs : List String := []
+  deriving Repr, DecidableEq
 
 inductive Op where
   | mkdir (path : String)
@@ -19,13 +24,14 @@ inductive Op where
   | replace (src dst : String)             -- atomic rename over dst
   deriving Repr, DecidableEq
 
-def fsGet (fs : Fs) (p : String) : Option Bytes := (fs.find? (·.1 == p)).map (·.2)
+def fsGet (fs : Fs) (p : String) : Option Bytes := (fs.files.find? (·.1 == p)).map (·.2)
 def fsSet (fs : Fs) (p : String) (b : Bytes) : Fs :=
-  if fs.any (·.1 == p) then fs.map fun e => if e.1 == p then (p, b) else e else fs ++ [(p, b)]
-def fsDel (fs : Fs) (p : String) : Fs := fs.filter (·.1 != p)
+  if fs.files.any (·.1 == p) then { fs with files := fs.files.map fun e => if e.1 == p then (p, b) else e }
+  else { fs with files := fs.files ++ [(p, b)] }
+def fsDel (fs : Fs) (p : String) : Fs := { fs with files := fs.files.filter (·.1 != p) }
 
 def applyOp (fs : Fs) : Op → Fs
-  | .mkdir _ => fs
+  | .mkdir p => if fs.dirs.contains p then fs else { fs with dirs := fs.dirs ++ [p] }
   | .create p => fsSet fs p []
   | .write p d => fsSet fs p ((fsGet fs p).getD [] ++ d)
   | .replace s d =>
@@ -69,5 +75,10 @@ def crashStates (fs : Fs) (ops : List Op) : List Fs :=
 
 /-- files the loader looks at in an ascmhl folder: the chain and everything ending in `.mhl` -/
 def isLoaded (name : String) : Bool := name.endsWith ".mhl" || name == chainName
+
+/-- the state in which every command refuses with exit 32 (`NoMHLChainException`): the ascmhl folder exists and holds
+no chain file -/
+def refuses32 (fs : Fs) (folder : String) : Bool :=
+  fs.dirs.contains folder && (fsGet fs (folder ++ chainName)).isNone
 
 end MhlModel.Crash
